@@ -65,8 +65,10 @@ def adversarial():
     """Schedules that the counterexamples of the mutated models use; always run."""
     out = []
     # reply released while the caller is still inside send(); reader runs before the caller resumes
-    out.append({"kind": "calls", "write_gated": True, "steps": [
+    out.append({"kind": "calls", "write_gated": True, "yield_after_write": True, "steps": [
         ["call", 1, False], ["pollc", 1], ["permit", 4096], ["pollc", 1], ["reply", 1], ["ticks"], ["pollc", 1], ["gate", False], ["quiesce"]]})
+    out.append({"kind": "calls", "yield_after_write": True, "steps": [
+        ["call", 1, False], ["call", 2, False], ["pollc", 1], ["reply", 1], ["ticks"], ["pollc", 2], ["error", 2], ["ticks"], ["pollc", 2], ["pollc", 1], ["quiesce"]]})
     out.append({"kind": "calls", "write_gated": True, "steps": [
         ["call", 1, False], ["call", 2, False], ["pollc", 1], ["pollc", 2], ["permit", 50], ["pollc", 1], ["permit", 4096], ["pollc", 1],
         ["reply", 1], ["ticks"], ["permit", 4096], ["pollc", 2], ["error", 2], ["ticks"], ["pollc", 2], ["pollc", 1], ["gate", False], ["quiesce"]]})
@@ -141,7 +143,7 @@ def random_scenario(rnd, kind):
             else:
                 steps.append(["ticks"])
         steps += [["gate", False], ["quiesce"]]
-        return {"kind": "calls", "write_gated": gated, "steps": steps}
+        return {"kind": "calls", "write_gated": gated, "yield_after_write": rnd.random() < 0.6, "steps": steps}
     if kind == "streams":
         live, nxt, sid = [], 1, 0
         for _ in range(rnd.randint(15, 50)):
@@ -249,7 +251,7 @@ def run(pid, tier, replay):
                     continue
                 if pid in ("C19", "C20") and has_fault:
                     continue
-                scen.append({"kind": "tlc", "write_gated": True, "steps": map_hist(h, i), "origin": "tlc-simulate"})
+                scen.append({"kind": "tlc", "write_gated": True, "yield_after_write": True, "steps": map_hist(h, i), "origin": "tlc-simulate"})
         rnd = random.Random(chk.seed * 7919 + sum(map(ord, pid)))
         nrand = 250 if chk.quick else 6000
         for _ in range(nrand):
